@@ -23,7 +23,9 @@ IGN_DIRS = [".git", "venv", "env", ".venv", ".env", "build", "dist", "__pycache_
             "foo.egg-info", ".egg-info", ".cache", "vendor", "target", ".eggs", ".mypy_cache", ".pytest_cache", ".ruff_cache", ".hg", ".svn",
             ".idea", ".vscode", ".local", "bower_components"]
 PATTERNS = ["build/**", "**/sub/*", "tests/test_*.py", "*.py", "pkg/**/conftest.py", "[", "src/*", "**/b_test.py", "tests/**",
-            "*/conftest.py", "conftest.py", "**/*_test.py", "a.b/**"]
+            "*/conftest.py", "conftest.py", "**/*_test.py", "a.b/**",
+            # patterns that match a DIRECTORY's relative path but not the files below it: the files stay indexed
+            "tests", "**/sub", "pkg", "src", "**/pkg", "tests/sub", "*kg", "s?c", "**/tests"]
 ROOTS = [["proj"], ["@link", "build", "proj"], ["@link", "proj"], ["build", "proj"], ["env", "x", "proj"], ["venv"], ["my-site-packages-mirror", "proj"], ["site-packages", "proj"],
          ["dist", "a.egg-info", "proj"], ["work", ".cache", "proj"], ["target"], ["pkg.egg-info"]]
 
